@@ -57,9 +57,11 @@ AbsReq(e) ==
 
 \* compare the model's response with the recorded one
 TokenSetOf(lines) == UNION { Range(t) : t \in Range(lines) }
-SameHeader(k, m, r) ==
+SameHeader(k, m, r, e) ==
   IF k = "ACEH" THEN (k \in DOMAIN m) = (k \in DOMAIN r) /\ (k \in DOMAIN r => TokenSetOf(r[k]) = Range(sem.exposeSet) /\ Len(r[k]) = 1)
-  ELSE IF k \in {"ACAM", "ACAH"}       \* the driver's tokeniser drops empty tokens (e.g. an empty ACRM value reflected in ACAM)
+  ELSE IF k = "ACAM" /\ e.acrm # <<>> /\ Get(m, k) = << <<e.acrm[1]>> >>
+    THEN Get(r, k) = << e.acrmt[1] >>   \* the first ACRM value reflected: the driver tokenises it (commas, empty tokens) like the request's
+  ELSE IF k \in {"ACAM", "ACAH"}       \* the driver's tokeniser drops empty tokens
     THEN [i \in DOMAIN Get(m, k) |-> SelectSeq(Get(m, k)[i], LAMBDA t : t # "")] = Get(r, k)
   ELSE Get(m, k) = Get(r, k)
 Conforms(e) ==
@@ -67,7 +69,7 @@ Conforms(e) ==
       real  == e.resp
   IN /\ model.handled = (e.invoked = 0)
      /\ (model.handled => model.status = real.status)
-     /\ \A k \in DOMAIN model.hdrs \cup DOMAIN real.hdrs : SameHeader(k, model.hdrs, real.hdrs)
+     /\ \A k \in DOMAIN model.hdrs \cup DOMAIN real.hdrs : SameHeader(k, model.hdrs, real.hdrs, e)
 
 Names == Ev("Names") /\ UNCHANGED <<sem, pats, namesb, drift, stats>>
 Config == /\ Ev("Config")
